@@ -248,10 +248,12 @@ func c06Stream(r *hx.Rand, tier string, n int, w *bufio.Writer) map[string]int {
 			// c_hash
 			chOK := true
 			if claims.CodeHash != "" || code != "" && flow == "code" {
-				want, _ := oidc.ClaimHash(code, jose.SignatureAlgorithm(sg.alg))
+				want := hx.RefClaimHash(code, sg.alg) // reference hash: standard library only
 				chOK = claims.CodeHash == "" || claims.CodeHash == want // c_hash is optional in the token response
 			}
 			l.B("o.chash", chOK)
+			// at_hash: when present it must be the spec hash of the access token of this very response
+			l.B("o.athash", claims.AccessTokenHash == "" || accessToken == "" || claims.AccessTokenHash == hx.RefClaimHash(accessToken, sg.alg))
 			// user claims present
 			var user []string
 			if m, ok := opbed.DecodeJWT(idToken); ok {
